@@ -785,16 +785,20 @@ func (*endpoint) Accept() (tcpip.Endpoint, *waiter.Queue, *tcpip.Error) {
 // 在协议栈中注册该UDP端，并且分配源端口
 func (e *endpoint) registerWithStack(nicid tcpip.NICID, netProtos []tcpip.NetworkProtocolNumber,
 	id stack.TransportEndpointID) (stack.TransportEndpointID, *tcpip.Error) {
+	reserved := false
 	if e.id.LocalPort == 0 {
 		port, err := e.stack.ReservePort(netProtos, ProtocolNumber, id.LocalAddress, id.LocalPort)
 		if err != nil {
 			return id, err
 		}
 		id.LocalPort = port
+		reserved = true
 	}
 
 	err := e.stack.RegisterTransportEndpoint(nicid, netProtos, ProtocolNumber, id, e)
-	if err != nil {
+	if err != nil && reserved {
+		// Only give back what this call reserved: an endpoint that is
+		// already bound keeps its port when a re-connect fails.
 		e.stack.ReleasePort(netProtos, ProtocolNumber, id.LocalAddress, id.LocalPort)
 	}
 	return id, err
